@@ -243,6 +243,25 @@ def tte_goals(g, q):
     return {'no_default_entries': z3.Implies(g['TKey'][q], z3.Not(g['TVal0'][q]))}
 
 
+# ---- I3 (key half): every instant inside a run is a snapshot id ------------------------------------
+
+def snapkeys_h(g, a, b):
+    r, n, S, E = tl(g, a, b)
+    q = z3.Int('q?sk')
+    cn = concrete_int(n)
+    if cn is not None:
+        return [z3.Implies(r != 0, FA([q], z3.Implies(z3.Or(*[z3.And(S[IntV(k)] <= q, q <= E[IntV(k)]) for k in range(cn)]) if cn else z3.BoolVal(False),
+                                                    g['SKey'][q]), [g['SKey'][q]]))]
+    i = z3.Int('i?sk')
+    return [z3.Implies(r != 0, FA([i, q], z3.Implies(z3.And(inb(i, n), S[i] <= q, q <= E[i]), g['SKey'][q]),
+                                  [z3.MultiPattern(S[i], g['SKey'][q])], 'snapkeys'))]
+
+
+def snapkeys_goals(g, a, b, q):
+    r, n, S, E = tl(g, a, b)
+    return {'runs_are_snapshot_ids': z3.Implies(z3.And(r != 0, EX_idx(n, lambda i: z3.And(S[i] <= q, q <= E[i]))), g['SKey'][q])}
+
+
 # ---- whole invariant -----------------------------------------------------------------------------
 
 def inv_assume(ctx, g, view, nodes, pairs, shape_pairs=None, k=2, removal=True):
@@ -252,6 +271,7 @@ def inv_assume(ctx, g, view, nodes, pairs, shape_pairs=None, k=2, removal=True):
     for (a, b) in pairs:
         ctx.assume(canon_h(g, a, b), 'canon')
         ctx.assume(link_h(g, view, a, b), 'link')
+        ctx.assume(snapkeys_h(g, a, b), 'snapkeys')
         if removal:
             ctx.assume(events_h(g, view, a, b, k), 'events')
 
